@@ -316,6 +316,18 @@ pub fn run(ctx: &mut Ctx) {
         let s = gen::mutate(&mut r, &corpus);
         twin_case(ctx, &s);
     }
+    // names that look like their ecosystem's combined form, without a namespace (a rule that
+    // "helpfully" moves a scope out of the name would show here)
+    if ctx.worker == 0 {
+        for ty in &types {
+            for n in ["@scope/name", "@scope//name", "@/x", "a/b", "a/b/c", "g:a", "g:a:b", ":a", "a:", "@a", "/"] {
+                name_case(ctx, ty, n, "combined-looking-names");
+                let enc = enc_all(n);
+                twin_case(ctx, &format!("pkg:{ty}/{enc}"));
+                twin_case(ctx, &format!("pkg:{ty}/ns/{enc}@1"));
+            }
+        }
+    }
     // all other spec type names: refused by the typed PURL, accepted by the untyped one
     if ctx.worker == 0 {
         for t in crate::mon::c15::SPEC_OTHER_TYPES {
